@@ -21,7 +21,7 @@ from .treebase import TreeObserver
 PID = "C09"
 LEVEL = "exploration"
 ENGINE = "ctxsim"
-REACH = ['tree:accept', 'tree:reject', 'tree:AnnotationError', 'build:built', 'build:ValueError']  # counters (prefixes) that a healthy batch makes non-zero; gaps are reported in the evidence
+REACH = ['history_shadow_judged', 'tree:accept', 'tree:reject', 'tree:AnnotationError', 'build:built', 'build:ValueError']  # counters (prefixes) that a healthy batch makes non-zero; gaps are reported in the evidence
 BUDGET = {"quick": 35, "thorough": 600}
 RULE = (
     "Seeded histories in jaxtyped('context') blocks: bind T and S (or not, or to other trees), then 3-8 candidate "
